@@ -186,3 +186,14 @@ package tmconsensus
 //@   loop 2 invariant n7a: ok && i < len(vals) ==> (forall j mathint :: bsbits(bs)[j] && 0 <= j && j < i ==> bsbits(seen)[j])
 //@   loop 2 invariant n7b: !(ok && i < len(vals)) ==> (forall j mathint :: bsbits(bs)[j] && 0 <= j && j < len(vals) ==> bsbits(seen)[j])
 //@   loop 2 invariant n8: visited(1)[blockHash] && (blockHash in precommits) && bsbits(bs) == pbits(precommits[blockHash])
+
+// ---- hash scheme: deterministic functions of the hashed contents (T3/T4: uninterpreted) ----
+
+//@ spec HKeys(hs iface, keys []gcrypto.PubKey) string reads E:Iface
+//@ spec HPows(hs iface, pows []uint64) string reads E:Int
+
+//@ iface HashScheme.PubKeys(hs, keys)
+//@   ensures result1 == nil ==> bytes(result0) == HKeys(hs, keys)
+
+//@ iface HashScheme.VotePowers(hs, pows)
+//@   ensures result1 == nil ==> bytes(result0) == HPows(hs, pows)
